@@ -299,15 +299,25 @@ func c14(c *ctx) {
 	idxWrite := c.fn("store.(*Indexer).IndexDoubleSigner")
 	idxRead := c.fn("store.(*Indexer).IsValidDoubleSigner")
 	if idxKey != nil && idxWrite != nil && idxRead != nil {
-		wr := len(callsIn(idxWrite, true, idxKey)) > 0
-		for _, g := range c.p.Funcs {
-			if enclosing(g) == idxWrite || g.Name() == "indexDoubleSignerByHeight" {
-				if len(callsIn(g, true, idxKey)) > 0 {
-					wr = true
+		// writer and reader reach the key function directly or through helpers of the package (depth 2)
+		var reach func(f *ssa.Function, depth int) bool
+		reach = func(f *ssa.Function, depth int) bool {
+			if len(callsIn(f, true, idxKey)) > 0 {
+				return true
+			}
+			if depth >= 2 {
+				return false
+			}
+			for _, g := range withAnons(f) {
+				for _, cs := range allCalls(g) {
+					if sc := cs.Common().StaticCallee(); sc != nil && !cs.Common().IsInvoke() && pkgShort(sc) == "store" && origin(sc) != f && reach(origin(sc), depth+1) {
+						return true
+					}
 				}
 			}
+			return false
 		}
-		rd := len(callsIn(idxRead, true, idxKey)) > 0
+		wr, rd := reach(idxWrite, 0), reach(idxRead, 0)
 		r.Check(wr && rd, "R4/indexer/key-agreement", c.p.Pos(idxKey.Pos()), "writer and reader both use doubleSignerHeightKey", "IndexDoubleSigner and IsValidDoubleSigner no longer share doubleSignerHeightKey: a recorded slash would not be found again")
 	}
 
